@@ -90,7 +90,7 @@ fn op() -> impl Strategy<Value = Op> {
         2 => (0u8..2, prop_oneof![Just(NCfg::Supply1000NoMinter), Just(NCfg::Supply0Minter), Just(NCfg::Supply0NoMinter)]).prop_map(|(slot, cfg)| Op::Deploy { slot, cfg }),
         2 => (0u8..3).prop_map(|slot| Op::Register { slot }),
         8 => (0u8..NU as u8, 0u8..5, 0u8..3, amt(), proptest::option::of(0u8..40), gas()).prop_map(|(user, tok, chain, amount, data, gas)| Op::Out { user, tok, chain, amount, data, gas }),
-        7 => (0u8..5, 0u8..(NU as u8 + 1), 0u8..3, amt(), proptest::option::of(0u8..40)).prop_map(|(tok, to, origin, amount, data)| Op::In { tok, to, origin, amount, data }),
+        7 => (0u8..5, prop_oneof![4 => 0u8..NU as u8, 1 => NU as u8..(NU as u8 + 3)], 0u8..3, amt(), proptest::option::of(0u8..40)).prop_map(|(tok, to, origin, amount, data)| Op::In { tok, to, origin, amount, data }),
         3 => (0u8..3).prop_map(Op::Trust),
         1 => (0u8..3).prop_map(Op::Untrust),
         1 => (0u8..2, 0u8..NU as u8, 1u8..100).prop_map(|(slot, to, amount)| Op::MinterMint { slot, to, amount }),
@@ -112,7 +112,7 @@ impl Property for C05 {
         "C05"
     }
     fn rule(&self) -> &'static str {
-        "proptest histories (<=25 quick / <=45 thorough ops) over 2 ITS-deployed tokens (initial supply 1000 / 0, with / without minter), 2 registered canonical Stellar assets plus a canonical harness token that checks neither sign nor balance, 4 users, an executable probe, 3 chains: deployments, registrations, outbound transfers (amount 0, -1, 1, small, balance, balance+1, custody, custody+1; data absent / present; gas 0, -1, 1, all, all+1), approved inbound transfers (to users or to the executable with data; amounts up to custody+1), trusted-chain changes, minter mints, transfers of unknown token ids. Oracle: ledger model of every balance, custody per canonical token and supply per deployed token, compared after every step (custody = token balance of the service, never negative; supply = sum of balances over the closed address pool); successful outbound = exactly sender -amount, payer -gas, gas service +gas, one contract_called whose payload equals the harness's own ABI encoding of SendToHub{chain, Transfer{id, XDR(sender), destination, amount, data}}, a gas payment event carrying keccak(payload), payer and amount, and a service event naming token, sender and amount; inbound credits exactly the amount and the service event names token, recipient and amount; every refused call leaves the ledger snapshot identical. The configuration of known finding C11 (supply>0 with minter) is excluded by construction. non-trivial = history has transfers in both directions on a canonical token, or a failing attempt between two successful transfers; distinct by Debug hash"
+        "proptest histories (<=25 quick / <=45 thorough ops) over 2 ITS-deployed tokens (initial supply 1000 / 0, with / without minter), 2 registered canonical Stellar assets plus a canonical harness token that checks neither sign nor balance, 4 users, an executable probe, 3 chains: deployments, registrations, outbound transfers (amount 0, -1, 1, small, balance, balance+1, custody, custody+1; data absent / present; gas 0, -1, 1, all, all+1), approved inbound transfers (to users, to the executable with data, occasionally to the service itself or the gas service; amounts up to custody+1), trusted-chain changes, minter mints, transfers of unknown token ids. Oracle: ledger model of every balance, custody per canonical token and supply per deployed token, compared after every step (custody = token balance of the service, never negative; supply = sum of balances over the closed address pool); successful outbound = exactly sender -amount, payer -gas, gas service +gas, one contract_called whose payload equals the harness's own ABI encoding of SendToHub{chain, Transfer{id, XDR(sender), destination, amount, data}}, a gas payment event carrying keccak(payload), payer and amount, and a service event naming token, sender and amount; inbound credits exactly the amount and the service event names token, recipient and amount; every refused call leaves the ledger snapshot identical. The configuration of known finding C11 (supply>0 with minter) is excluded by construction. non-trivial = history has transfers in both directions on a canonical token, or a failing attempt between two successful transfers; distinct by Debug hash"
     }
     fn assumptions(&self) -> Vec<&'static str> {
         vec!["with the unchecked harness token, a transfer beyond the sender's balance / the custody is the token's business, not the service's (Either, effects still tracked)"]
@@ -406,7 +406,9 @@ impl Property for C05 {
                 Op::In { tok, to, origin, amount, data } => {
                     let ti = *tok as usize % 5;
                     let o = *origin as usize % 3;
-                    let to_i = if data.is_some() { NU } else { *to as usize % NU }; // data goes to the executable
+                    // data goes to the executable; without data the recipient is a user, or - every so often - the
+                    // executable, the service itself or the gas service (aliasing with the custodian must not matter)
+                    let to_i = if data.is_some() { NU } else { *to as usize % (NU + 3) };
                     let registered = toks[ti].is_some();
                     let tid = match &toks[ti] {
                         Some(t) => t.id,
